@@ -55,6 +55,27 @@ func TestVerif_WriteBack(t *testing.T) {
 	r.Finish()
 }
 
+// User transactions that keep the table locked across virtual time (a slow writer): whatever the reconciler and its refresher
+// decided before they could get the lock must be re-checked once they hold it. One run at a time: the hook gate that parks the
+// other lock requesters (so that the bubble's clock can advance) is process-wide.
+func TestVerif_LockHeldWindow(t *testing.T) {
+	r := vkit.Start(t, "C15", "lock-held-window", "exploration", rule+" (variant: refreshing always on, a third of the user transactions of the main goroutine hold the table lock for 1-400 ms of virtual time "+
+		"while the reconciler, the refresher and the writes injected from operations wait for it)")
+	r.Require("operation_attempts", "user_transactions_holding_the_lock")
+	n := vkit.N(600, 20000)
+	for i := 0; i < n; i++ {
+		if part, idx, ok := vkit.ReplayCase(); ok && !(part == r.Part && idx == i) {
+			continue
+		}
+		cfg := recsim.RandomConfig(r.Rand(i, 99), false)
+		cfg.Refresh, cfg.HoldLock = true, true
+		cfg.Report = map[string]bool{"status": true}
+		r.LogCase(i)
+		recsim.Run(t, r, i, cfg)
+	}
+	r.Finish()
+}
+
 // ---- StatusSet is a value: Set/Pending return new sets and leave every earlier one as it was ----
 
 const ruleSet = "StatusSet values (the status field of objects shared by several reconcilers, copied by value with every object clone): pool of versions, each step applies Set (8 reconciler names, " +
